@@ -114,7 +114,7 @@ func (e Event) TLA() string {
 		return fmt.Sprintf(`<<"%s", %d, %d, %s>>`, e.K, e.A, e.B, tlaBool(e.F))
 	case "ret":
 		return fmt.Sprintf(`<<"ret", %d>>`, e.A)
-	case "stop", "stopret", "wait", "waitret", "maxfail":
+	case "stop", "stopret", "wait", "waitret", "maxfail", "quiet":
 		return fmt.Sprintf(`<<"%s">>`, e.K)
 	case "lclose", "onaccept", "inclose":
 		return fmt.Sprintf(`<<"%s", %d>>`, e.K, e.A)
